@@ -955,6 +955,13 @@ class Interp:
                 else:
                     res = Num("b")
             elif isinstance(op, (ast.In, ast.NotIn)):
+                items = right.items if isinstance(right, (Tup, Lst)) else None
+                if isinstance(left, StrV) and left.const is not None and items is not None and all(isinstance(x, StrV) and x.const is not None for x in items):
+                    # a constant name tested against a literal collection of names: name in ("kl_ova", "mi")
+                    hit = left.const in [x.const for x in items]
+                    res = Num("b", const=hit if isinstance(op, ast.In) else not hit)
+                    left = right
+                    continue
                 self.check_same_space(left, right.element() if isinstance(right, (Lst,)) else
                                       (Num("i", space=right.space) if isinstance(right, Arr) else None), node, "in")
                 res = Num("b")
